@@ -63,3 +63,8 @@ chk("C19", "model_checking",
     "Alphabet of 11 request kinds x 15 key forms = 165 elements (missing/empty/wrong/prefix/suffix/case/null/numeric/array keys, duplicate members in both orders, member spelled Key/KEY, calls, unknown methods, subscribe/unsubscribe, missing id, malformed method, oddly typed params). Every single request and every batch of length <= 3 over the full alphabet (4.5M requests) plus length 4 over a reduced alphabet through the real JSON codec; singles and keyed/keyless pairs in both positions over HTTP, WebSocket and unix-socket IPC; keyless unsubscribe of a live subscription. Probe counters must equal the keyed elements; keyless well-formed elements must get code -32800.",
     "'Carries the key' follows encoding/json semantics (case-insensitive member names, last duplicate wins).",
     "DESIGN.md 5/C19", "enum")
+chk("C18", "exploration",
+    "reflection-driven bounded-exhaustive enumeration of field values of every encodable type; round trip, re-encoding stability, field influence, signature binding",
+    "49 types (registry cross-checked at run time against every ToBytes/FromBytes pair in the anchored source files): a base object with every exported and unexported field populated with a distinguishing value; every field x every value of its small domain and every pair of fields; decode(encode(x)) == x modulo documented normalisations, encode(decode(encode(x))) == encode(x), Hash() stable, every field influences the encoding unless on a written transient allow-list; for the 6 signed types every non-signature field change must change the recovered signer.",
+    "Values between the listed representatives are outside the bound; maps are populated with one entry (UpgradeVotes' map-ordered encoding with >=2 entries is node-local storage, not hashed).",
+    "DESIGN.md 5/C18", "enum")
